@@ -755,6 +755,10 @@ def discharge_by_guard(p, s):
                         z = q.zero_test(si, en)
                         if z is not None and labs == {not z}:
                             return "non-empty range 0..end: the call is control-dependent on end != 0 (unsigned)"
+                if st == ("const", "int", 0):
+                    ze = q.zero_edges(si, en)      # also `match end { 0 => .., n => gen_range(0..n) }`
+                    if ze is not None and {t_ for _, t_ in al} == {ze[1]}:
+                        return "non-empty range 0..end: the call is control-dependent on end != 0 (unsigned)"
     if decl in ("core::char::methods::<impl char>::to_digit", "core::char::methods::<impl char>::from_digit"):
         rdx = strip(s.ops[1]) if len(s.ops) > 1 else None
         if rdx and rdx[0] == "const" and isinstance(rdx[2], int) and 2 <= rdx[2] <= 36:
@@ -1048,6 +1052,10 @@ def match_pattern(site, pats):
                             return True
                 return False
             if all(ok_bound(a) for nm, v in rg[3] for a in alts(v)):
+                return pt
+            continue
+        if "ops0_prefix" in pt:
+            if site.fn.path == pt.get("fn") and site.ops and _sig(site.ops[0]).startswith(pt["ops0_prefix"]):
                 return pt
             continue
         if "ops0" in pt:
